@@ -867,12 +867,22 @@ class C11(Prop):
 PROP = C11()
 
 MANIFEST = dict(
-    technique="Lean 4 proof over an arena model of VariantBase.add/__getitem__/get_variants (State -> Op -> State x Out; invariant by induction over "
-              "arbitrary add histories; refusal frame theorem from the order of mutations; lookup and filter theorems by induction on the tree/fuel); variant "
-              "validation runs the rule list regenerated from the source; model tied to the code by per-step differential snapshots; oracle = the property on the real objects",
-    text="C11_refused: whatever the cause, a refused add leaves every children dict unchanged (the parent pointer of the argument is NOT preserved: F13, witness theorem). "
-         "C11_reachable: after ANY history of add calls every edge below a variant has key = id, UID = parent UID-id, arches within the parent's, validated fields; "
-         "C11_reachable_partial: with fresh arguments also parent/children mirror and one position per object. C11_findable_*: lookup by id from the parent, by UID from "
-         "the top along any path (hypotheses name F14/F20 exactly). C11_get_variants_*: sorted by UID, filters sound, complete without filter.",
-    note="Not modelled: attribute writes between adds, __delitem__, the JSON writer/reader (the reloaded forest is tied by replaying deserialize's add history).",
+    technique="Lean 4 proof over an arena model of VariantBase.add/__getitem__/_get_all_parents/get_variants (State -> Op -> State x Out): invariants by "
+              "induction over arbitrary add histories, refusal frame theorem from the order of mutations, lookup by induction on the dashed path, get_variants by "
+              "induction on fuel/tree (sort = stable insertion sort, permutation + order lemmas); variant validation runs the rule list regenerated from the source "
+              "(rules located by content); model tied to the code by per-step differential snapshots (children dicts, parent pointers, ci[uid] of every object, "
+              "outcome class) and by replaying deserialize's add history after dumps/loads; oracle = the property evaluated on the real objects after every step",
+    text="Unbounded (any number of variants, depth, history, fuel). C11_refused: whatever the cause, a refused add leaves every children dict unchanged; "
+         "C11_accepted_frame: an accepted one appends exactly one entry. C11_inv/C11_reachable: after ANY history every entry k->v below a variant p has k = v.id, "
+         "v.uid = p.uid-v.id, v.arches within p.arches, validated dash-free ids, distinct keys (InvW). C11_inv_partial/C11_reachable_partial: for histories on fresh "
+         "objects also parent/children mirror, one position per object, top-level alignment (Inv). C11_findable_by_id/_by_key: full; C11_findable_partial: by UID from "
+         "the top at any depth, hypotheses naming F14/F20/F22 exactly. C11_get_variants_sorted/_sound/_complete/_all: ordered by UID, both filters sound ('src' matches "
+         "all), complete without type filter (arch completeness uses arches-subset). C11_get_variants_strict_below: on a variant, strictly increasing UIDs and no "
+         "duplicates with NO hypothesis on UIDs (distinctness below a variant is derived from InvW); on the top level it needs UIDs of different top-level subtrees to "
+         "differ (derived from Inv when no top-level UID is dashed). Witness theorems (decide, replayed on the real code): F13, F14, F19, F20, F21.",
+    note="False of the code and kept as known findings with predicates: F13 (refused add rewrites the parent pointer), F14 (dashed top-level UID may equal a child's UID), "
+         "F19 (top-level add validates against a stale parent: variant placed twice, returned twice), F20 (__getitem__ compares the relative path with full child UIDs: "
+         "ci['A-A-C'] is A-C), F21 ('self' ignores the arch filter / raises on the top level), F22 (explicit top-level key unchecked). Not modelled: attribute writes "
+         "between adds, __delitem__, the JSON writer/reader (the reloaded forest is tied by replaying deserialize's add history through the model); termination of "
+         "get_variants is not proved (results are stated for every fuel that suffices; running out of fuel = RecursionError).",
     ref="7/C11")
